@@ -79,6 +79,18 @@ CHECKS = {
                      "linked with the generic driver, the headers parsed as C++, and a descriptor-consistency walk (offsets, tag maps, optional-member tables, PER ranges, "
                      "enumeration maps) run over every PDU; on rejection a diagnostic is required.",
                 note="Warnings ignored; UBSan reports of the compiler recorded only; option subsets sampled; descriptor walk checks structural invariants, not semantics."),
+    "C02": dict(level="exploration", engine="vdriver", ref="DESIGN.md 4/C02",
+                technique="differential monitor: asn_encode output compared byte for byte with independent reference encoders (DER, canonical UPER, canonical OER) over generated modules, ASan-watched",
+                text="Generated modules plus a fixed module of boundary shapes (16K-multiple lengths in strings and open types, long OPTIONAL runs, tag numbers at the "
+                     "short/long form limits) are compiled against the current tree; each value enters through the reference DER and its DER / UPER / OER encodings "
+                     "are compared with vf/asn/der.py, uper.py, oer.py written from X.690/X.691/X.696.",
+                note="Trusts the reference encoders (cross-checked against the vectors and hand-triaged disagreements recorded in DESIGN.md); subset excludes time types under UPER, SET under UPER/OER, untagged CHOICE alternatives under OER; constructs with listed findings run as targeted minority."),
+    "C03": dict(level="exploration", engine="vdriver", ref="DESIGN.md 4/C03",
+                technique="differential monitor: decoders fed with model-generated alternative valid encodings; result compared with the reference DER of the value",
+                text="For each generated value the reference model emits its DER encoding and members of the BER variant families (long-form lengths, indefinite lengths, "
+                     "constructed/nested strings, SET and SET OF permutations, explicit DEFAULT values, non-FF TRUE, unknown extension additions) and the reference "
+                     "UPER/OER/XER encodings; every one must decode RC_OK, consume everything and re-encode to the reference DER.",
+                note="Only encodings the standards make valid are generated; variants sampled (3/12 per family and value); families hitting the two listed BER findings are a 15% minority."),
 }
 
 PENDING_REASON = "check not implemented yet (bring-up in progress; see DESIGN.md section 9)"
